@@ -262,3 +262,26 @@ prop(
     technique="Lean 4 proof (decidable obligation on the translated global-items list + per-thread slot invariant) + thread lane",
     design_ref="DESIGN.md section 4 C18",
 )
+
+
+prop(
+    "C07",
+    ["LolHtml.Thm.C07_Edit"],
+    [{"lane": "edit", "n_quick": 2500, "n_thorough": 30000}],
+    "lane edit: documents built from a token-level grammar (well-formed tags with attributes, end tags, comments, text, doctype; nested / unclosed / stray / void / foreign self-closing elements) x cut positions x handler scripts (selector restricted to type selectors and *, all Element / start_tag / end_tag / comment / text / doctype / document-end operations with arbitrary strings, both content types, streaming handlers, several handlers per token, on_end_tag): real HtmlRewriter output vs model, documented output (Spec.EditDoc) vs an independent Rust reference editor",
+    ["the token stream is an input of the model (the parser is C01/C02/C16's subject); selectors beyond type selectors and * are C04's",
+     "the whole-document theorem is for CLEAN runs: no element with visible end-region edits is closed implicitly or left open at end of input (outside: known findings F24, F25, refuted by proved counter-examples)",
+     "UTF-8 documents (escaping/encoding of inserted content is an abstract function enc; C08/C13 own it)", PKG_SCOPE],
+    level_text=("Lean 4 theorems, universal over operation scripts, tokens and handler sets: serialising an edited token = "
+                "before1..n ++ (own bytes | last replacement | nothing) ++ after m..1 for every token kind (C07_token_edit); "
+                "untouched attributes keep raw bytes and order, touched ones are name=\"escaped\", last set/remove wins "
+                "(C07_attrs_*); every Element method = its documented edit of the regions before / start tag / prepended / "
+                "inner / appended / end tag / after, incl. no-ops when the element cannot have content (C07_element_ops); the "
+                "emission switch: nothing between a start tag with removed content and its closing end tag reaches the sink, "
+                "emission resumes exactly there (C07_removed_content_*); whole document: for every clean run the sink equals "
+                "Spec.EditDoc.rewrite by a simulation proof (C07_output_eq_edit_spec). The unconditional statement is refuted "
+                "on implicit-close / unclosed-at-EOF shapes (known findings)."),
+    level_note="Trusted: Lean kernel; model of rewritable_units/{mutations,element,tokens/*}.rs and the removed-content logic tied by lane edit; Spec.EditDoc as the reading of the API documentation.",
+    technique="Lean 4 proof (algebraic laws of mutations + simulation to a document-edit specification) + correspondence lane + reference editor",
+    design_ref="DESIGN.md section 4 C07",
+)
